@@ -8,6 +8,7 @@ import (
 	"os"
 	"sort"
 	"strings"
+	"sync/atomic"
 	"testing"
 	"time"
 
@@ -50,8 +51,145 @@ func (c *c06Config) GetAddCountsToRoot() bool {
 // the clock has moved: the workers are parked (pause handshake), sendTraces last touched Config before it
 // delivered the start sentinel, the monitor has not had a tick yet — every later reader is ordered after this
 // write by a channel operation of the driver (resume, span hand-over, clock advance, reload signal).
-func c06adSwapConfig(e *E1) {
-	e.Inspect(func(*E1View) { e.coll.Config = &c06Config{e.cfgW} })
+func c06adSwapConfig(e *E1) *c06Stress {
+	st := &c06Stress{E1Stress: e.Stress}
+	e.Inspect(func(*E1View) {
+		e.coll.Config = &c06Config{e.cfgW}
+		e.coll.StressRelief = st // read by the monitor only after a reload signal, and by the driver's own goroutine
+	})
+	return st
+}
+
+// c06Stress wraps E1's scripted StressReliever (an injected dependency of the collector): a one-shot hook runs at the
+// start of UpdateFromConfig, i.e. on the monitor goroutine in the middle of reloadConfigs.
+type c06Stress struct {
+	*E1Stress
+	hook atomic.Pointer[func()]
+}
+
+func (s *c06Stress) UpdateFromConfig() {
+	if h := s.hook.Swap(nil); h != nil {
+		(*h)()
+	}
+	s.E1Stress.UpdateFromConfig()
+}
+
+func c06adMonitorSignalPending(e *E1) bool { return len(e.coll.reload) != 0 }
+
+// c06CoalescedReload: while the monitor goroutine is held inside reloadConfigs (hook above), two more reloads are
+// announced; the first fills the monitor's single-slot reload channel, the second (mutateB) finds it full and is
+// coalesced into it. After the release the monitor finishes the first reloadConfigs and runs one more for the pending
+// signal; the step ends when that second run has passed UpdateFromConfig, every worker handled a reload signal and no
+// signal is pending — from then on the LAST change must be in force. Returns a reason when the interleaving could not
+// be produced (bounded waits; the caller reports inconclusive).
+func c06CoalescedReload(e *E1, st *c06Stress, what string, mutateA, mutateB func(*config.MockConfig)) string {
+	if e.failed != "" {
+		return ""
+	}
+	e.beginStep()
+	e.logOp("coalesced-reload", what)
+	if !e.waitFor("previous reload drained", func() bool { return e1adReloadIdle(e.coll) }) {
+		return ""
+	}
+	n0 := e.cfgW.sampleCacheCalls.Load()
+	u0 := e.Stress.updates.Load()
+	entered, release := make(chan struct{}), make(chan struct{})
+	var held atomic.Bool
+	hook := func() {
+		close(entered)
+		select {
+		case <-release:
+		case <-time.After(10 * time.Second):
+			held.Store(true) // gave up waiting: the driver never released (harness problem)
+		}
+	}
+	st.hook.Store(&hook)
+	fire := func(mutate func(*config.MockConfig), cfgHash string) {
+		e.Cfg.Mux.Lock()
+		if mutate != nil {
+			mutate(e.Cfg)
+		}
+		cbs := append([]config.ConfigReloadCallback(nil), e.Cfg.Callbacks...)
+		e.Cfg.Mux.Unlock()
+		for _, cb := range cbs {
+			cb(cfgHash, "rules-same")
+		}
+	}
+	step := e.Step()
+	fire(nil, fmt.Sprintf("cfg-s%d-0", step))
+	select {
+	case <-entered:
+	case <-time.After(5 * time.Second):
+		st.hook.Store(nil)
+		return "the monitor did not reach StressRelief.UpdateFromConfig within 5 s"
+	}
+	fire(mutateA, fmt.Sprintf("cfg-s%d-a", step))
+	pendingAfterA := c06adMonitorSignalPending(e)
+	fire(mutateB, fmt.Sprintf("cfg-s%d-b", step))
+	close(release)
+	if !pendingAfterA {
+		return "the reload signal of the second reload was not pending while the monitor was held"
+	}
+	if !e.waitFor("monitor ran reloadConfigs for the pending signal", func() bool { return e.Stress.updates.Load() >= u0+2 }) {
+		return ""
+	}
+	want := n0 + int64(e.Workers())
+	if !e.waitFor("every worker handled a reload signal", func() bool { return e.cfgW.sampleCacheCalls.Load() >= want }) {
+		return ""
+	}
+	if !e.waitFor("reload signals drained", func() bool { return e1adReloadIdle(e.coll) }) {
+		return ""
+	}
+	e.quiesce(0)
+	if held.Load() {
+		return "hook released by its own bound"
+	}
+	return ""
+}
+
+// c06DoubleReload fires two configuration reloads back to back while every worker is held by the pause handshake,
+// so that both are pending before any worker handles its (single-slot) reload signal: reload 1 changes the sampler
+// rules (new rules hash), reload 2 changes only a non-rules option (same rules hash, new config hash). The registered
+// reload callbacks are called the way the real config does it, with (config hash, rules hash); MockConfig.Reload
+// itself would pass two empty strings. Then the workers are released and the step ends like E1.Reload: monitor ran
+// reloadConfigs, every worker handled a reload signal, no signal pending, quiescence.
+func c06DoubleReload(e *E1, what string, mutate1 func(*config.MockConfig), cfg1, rules1 string, mutate2 func(*config.MockConfig), cfg2 string) {
+	if e.failed != "" {
+		return
+	}
+	e.beginStep()
+	e.logOp("double-reload", map[string]any{"what": what, "reload1": []string{cfg1, rules1}, "reload2": []string{cfg2, rules1}})
+	if !e.waitFor("previous reload drained", func() bool { return e1adReloadIdle(e.coll) }) {
+		return
+	}
+	n0 := e.cfgW.sampleCacheCalls.Load()
+	u0 := e.Stress.updates.Load()
+	if !e.park() {
+		return
+	}
+	fire := func(mutate func(*config.MockConfig), cfgHash, rulesHash string) {
+		e.Cfg.Mux.Lock()
+		mutate(e.Cfg)
+		cbs := append([]config.ConfigReloadCallback(nil), e.Cfg.Callbacks...)
+		e.Cfg.Mux.Unlock()
+		for _, cb := range cbs {
+			cb(cfgHash, rulesHash)
+		}
+	}
+	fire(mutate1, cfg1, rules1)
+	fire(mutate2, cfg2, rules1)
+	e.resume()
+	want := n0 + int64(e.Workers())
+	if !e.waitFor("monitor ran reloadConfigs", func() bool { return e.Stress.updates.Load() > u0 }) {
+		return
+	}
+	if !e.waitFor("every worker handled a reload signal", func() bool { return e.cfgW.sampleCacheCalls.Load() >= want }) {
+		return
+	}
+	if !e.waitFor("reload signals drained", func() bool { return e1adReloadIdle(e.coll) }) {
+		return
+	}
+	e.quiesce(0)
 }
 
 // ---- model ---------------------------------------------------------------------------------
@@ -65,8 +203,9 @@ type c06Opts struct {
 }
 
 type c06OptsAt struct {
-	Step int     `json:"reload_step"`
-	Opts c06Opts `json:"options"`
+	Step      int     `json:"reload_step"`
+	Opts      c06Opts `json:"options"`
+	Coalesced bool    `json:"announced_while_a_reload_signal_was_already_pending,omitempty"`
 }
 
 type c06Trace struct {
@@ -142,7 +281,7 @@ func TestVerif_C06(t *testing.T) {
 		run.Assume("os.Hostname() is unavailable in this environment: hostname decoration is not judged")
 		hostname = ""
 	}
-	run.Rule("seeded histories on the real collector: traces of spans / span events / links with on-time, late or no root, decided by rules (driver-chosen rule, versioned name), deterministic-1 or stress relief; steps: span (both entry points), advance around SendDelay/TraceTimeout, reload toggling AddHostMetadataToTrace / AddRuleReasonToTrace / AddSpanCountToRoot / AddCountsToRoot / AdditionalAttributes (start values random too), sampler reload renaming the rules, late spans and late roots, spans through ProcessSpanImmediately, ejections; non-trivial = a late root on a kept trace with further late spans AND at least two option reloads each followed by forwarded spans; distinct = (start options, set of option states under which spans were forwarded per path)")
+	run.Rule("seeded histories on the real collector: traces of spans / span events / links with on-time, late or no root, decided by rules (driver-chosen rule, versioned name), deterministic-1 or stress relief; steps: span (both entry points), advance around SendDelay/TraceTimeout, reload toggling AddHostMetadataToTrace / AddRuleReasonToTrace / AddSpanCountToRoot / AddCountsToRoot / AdditionalAttributes (start values random too), sampler reload renaming the rules, back-to-back double reload (rules renamed, then an option-only reload with the same rules hash, both fired while the workers are held), coalesced reload (AddHostMetadataToTrace toggled by a reload announced while the monitor is held inside reloadConfigs and another reload signal is already pending), late spans and late roots, spans through ProcessSpanImmediately, ejections; non-trivial = a late root on a kept trace with further late spans AND at least two option reloads each followed by forwarded spans; distinct = (start options, set of option states under which spans were forwarded per path)")
 	run.Assume("options in force for an event = those of the last reload step before the event's step (E1 quiesces after every reload and a reload step forwards nothing)")
 	run.Assume("received-span counts are taken from the driver's log of accepted spans; kept-decision capacity is far above the trace count; queues never overflow; DryRun off")
 	run.Assume("config.MockConfig answers GetAddCountsToRoot with AddSpanCountToRoot; the collector gets a wrapper answering it from AddCountsToRoot instead")
@@ -166,21 +305,24 @@ func TestVerif_C06(t *testing.T) {
 			return m
 		}
 		start := c06Opts{Host: rng.Bool(), Reason: rng.Bool(), SpanCount: rng.Bool(), Counts: rng.Chance(0.4), Attrs: genAttrs()}
-		ruleVer := 0
+		ruleVer, reloadNo, doubleReloads, coalescedReloads := 0, 0, 0, 0
 		cfg := E1Config{Workers: workers, AddRuleReason: start.Reason, AddSpanCount: start.SpanCount, AddHostMeta: start.Host, Attributes: start.Attrs,
 			Traces:   config.TracesConfig{SendTicker: config.Duration(tick), SendDelay: config.Duration(sd), TraceTimeout: config.Duration(tt), SpanLimit: uint(verifkit.Pick(rng, 0, 0, 4)), MaxExpiredTraces: 3000},
 			Samplers: map[string]*config.V2SamplerChoice{"env-rules": c06RulesChoice(0), "env-det": {DeterministicSampler: &config.DeterministicSamplerConfig{SampleRate: 1}}}}
 		e := e1Start(t, cfg)
 		defer e.Stop()
-		c06adSwapConfig(e)
+		stress := c06adSwapConfig(e)
 		e.Cfg.Mux.Lock()
 		e.Cfg.AddCountsToRoot = start.Counts
 		e.Cfg.Mux.Unlock()
 
 		history := []c06OptsAt{{Step: 0, Opts: start}}
 		cur := start
-		type verAt struct{ step, ver int }
-		vers := []verAt{{0, 0}}
+		type verAt struct {
+			step, ver int
+			double    bool // introduced by a back-to-back double reload
+		}
+		vers := []verAt{{0, 0, false}}
 		var traces []*c06Trace
 		byID := map[string]*c06Trace{}
 		forwardedTraces := map[string]bool{} // kept traces with at least one forwarded span (⇒ decided)
@@ -292,8 +434,53 @@ func TestVerif_C06(t *testing.T) {
 					ns["env-rules"] = c06RulesChoice(v)
 					m.Samplers = ns
 				})
-				vers = append(vers, verAt{e.Step(), v})
-			case k < 95: // stress relief: a new trace, or a span of a kept decided trace
+				vers = append(vers, verAt{e.Step(), v, false})
+			case k < 91: // back-to-back reloads: rules renamed, then an option-only reload with the same rules hash
+				if ruleVer >= 9 {
+					continue
+				}
+				ruleVer++
+				v := ruleVer
+				reloadNo++
+				nx := c06Opts{Host: cur.Host, Reason: cur.Reason, SpanCount: cur.SpanCount, Counts: cur.Counts, Attrs: cur.Attrs}
+				what := ""
+				switch {
+				case !nx.Reason:
+					nx.Reason, what = true, "reason=true"
+				case rng.Chance(0.4):
+					nx.SpanCount, what = !nx.SpanCount, fmt.Sprintf("spancount=%v", !cur.SpanCount)
+				case rng.Chance(0.5):
+					nx.Counts, what = !nx.Counts, fmt.Sprintf("counts=%v", !cur.Counts)
+				default:
+					nx.Attrs, what = map[string]string{c06AttrKeys[0]: "v" + rng.Hex(3)}, "attrs"
+				}
+				c06DoubleReload(e, fmt.Sprintf("rules renamed to v%d, then %s", v, what),
+					func(m *config.MockConfig) {
+						ns := maps.Clone(m.Samplers)
+						ns["env-rules"] = c06RulesChoice(v)
+						m.Samplers = ns
+					}, fmt.Sprintf("cfg-%d", reloadNo), fmt.Sprintf("rules-v%d", v),
+					func(m *config.MockConfig) {
+						m.AddRuleReasonToTrace, m.AddSpanCountToRoot, m.AddCountsToRoot = nx.Reason, nx.SpanCount, nx.Counts
+						m.AdditionalAttributes = maps.Clone(nx.Attrs)
+					}, fmt.Sprintf("cfg-%d'", reloadNo))
+				cur = nx
+				history = append(history, c06OptsAt{Step: e.Step(), Opts: nx})
+				vers = append(vers, verAt{e.Step(), v, true})
+				doubleReloads++
+			case k < 94: // reload whose signal is coalesced: announced while the monitor is busy and a signal is already pending
+				nx := c06Opts{Host: !cur.Host, Reason: cur.Reason, SpanCount: cur.SpanCount, Counts: cur.Counts, Attrs: genAttrs()}
+				why := c06CoalescedReload(e, stress, fmt.Sprintf("A: attrs=%v; B (coalesced): host=%v", nx.Attrs, nx.Host),
+					func(m *config.MockConfig) { m.AdditionalAttributes = maps.Clone(nx.Attrs) },
+					func(m *config.MockConfig) { m.AddHostMetadataToTrace = nx.Host })
+				if why != "" {
+					run.Inconclusive("coalesced reload: " + why)
+					return
+				}
+				cur = nx
+				history = append(history, c06OptsAt{Step: e.Step(), Opts: nx, Coalesced: true})
+				coalescedReloads++
+			case k < 98: // stress relief: a new trace, or a span of a kept decided trace
 				var tr *c06Trace
 				var pool []*c06Trace
 				for _, x := range traces {
@@ -336,14 +523,14 @@ func TestVerif_C06(t *testing.T) {
 			}
 			return r
 		}
-		verInForce := func(step int) int {
-			r := 0
+		verInForce := func(step int) (int, bool) {
+			r, dbl := 0, false
 			for _, v := range vers[1:] {
 				if v.step < step {
-					r = v.ver
+					r, dbl = v.ver, v.double
 				}
 			}
-			return r
+			return r, dbl
 		}
 		everAttr := map[string]bool{}
 		for _, h := range history {
@@ -425,6 +612,10 @@ func TestVerif_C06(t *testing.T) {
 				if hostname != "" {
 					got, has := ev.Fields[types.MetaRefineryLocalHostname]
 					cls := changed(func(x c06Opts) bool { return x.Host })
+					if of.Coalesced {
+						cls = "changed-by-coalesced-reload"
+						run.Count("hostname_checks_after_coalesced_reload", 1)
+					}
 					switch {
 					case o.Host && (!has || got != hostname):
 						run.Violation("C06/hostname/"+path+"/missing-while-enabled/"+cls, fmt.Sprintf("AddHostMetadataToTrace is on (since reload step %d) but span %s forwarded at step %d has %s=%v, hostname is %q", of.Step, a.Span.ID, ev.Step, types.MetaRefineryLocalHostname, got, hostname), wit(hostname))
@@ -436,21 +627,26 @@ func TestVerif_C06(t *testing.T) {
 				{
 					got, has := ev.Fields[types.MetaRefineryReason]
 					cls := changed(func(x c06Opts) bool { return x.Reason })
-					want := ""
+					want, wantCls := "", ""
 					switch {
 					case tr.Mode == "stress":
 						want = "verif-stress"
 					case tr.Env == "env-det":
 						want = "deterministic"
 					case d >= 0:
-						want = fmt.Sprintf("keep-v%d!", verInForce(d))
+						v, dbl := verInForce(d)
+						want = fmt.Sprintf("keep-v%d!", v)
+						if dbl && path == "on-time" {
+							wantCls = "/after-back-to-back-reloads"
+							run.Count("reason_checks_after_back_to_back_reloads", 1)
+						}
 					}
 					switch {
 					case o.Reason && !has:
 						run.Violation("C06/reason/"+path+"/missing-while-enabled/"+cls, fmt.Sprintf("AddRuleReasonToTrace is on but span %s forwarded at step %d has no %s", a.Span.ID, ev.Step, types.MetaRefineryReason), wit(want))
 					case o.Reason && want != "":
 						if s, _ := got.(string); !strings.Contains(s, want) {
-							run.Violation("C06/reason/"+path+"/not-the-decision-reason", fmt.Sprintf("span %s: %s=%q does not name the decision (%q)", a.Span.ID, types.MetaRefineryReason, got, want), wit(want))
+							run.Violation("C06/reason/"+path+"/not-the-decision-reason"+wantCls, fmt.Sprintf("span %s: %s=%q does not name the decision (%q)", a.Span.ID, types.MetaRefineryReason, got, want), wit(want))
 						}
 					case !o.Reason && has:
 						run.Violation("C06/reason/"+path+"/present-while-disabled/"+cls, fmt.Sprintf("AddRuleReasonToTrace is off but span %s forwarded at step %d has %s=%v", a.Span.ID, ev.Step, types.MetaRefineryReason, got), wit(nil))
@@ -519,6 +715,8 @@ func TestVerif_C06(t *testing.T) {
 		if lateRootWithLate && len(reloadsWithTraffic) >= 2 {
 			run.Nontrivial(fmt.Sprintf("start h%v r%v s%v c%v | %s", start.Host, start.Reason, start.SpanCount, start.Counts, strings.Join(keys, ",")))
 		}
+		run.Count("double_reloads", int64(doubleReloads))
+		run.Count("coalesced_reloads", int64(coalescedReloads))
 		run.Count("option_reloads", int64(len(history)-1))
 		run.Count("option_reloads_followed_by_forwarded_spans", int64(len(reloadsWithTraffic)))
 		run.Count("events_forwarded", int64(e.EventCount()))
